@@ -728,6 +728,13 @@ def c16(tier):
     c.traces_validated += ran
     c.extra["scenarios_in_model"] = len(scen)
     c.samples.append({"scenario": chosen[0]})
+    ran, probs = cli.exit_scenarios(c, tier)
+    for sc, p in probs:
+        c.add_violation({"prop": "C16", "clause": p["clause"], "detail": p["detail"], "case": {"label": f"exit/{sc['kind']}/{sc['fails']}", "scenario": sc}})
+    c.evaluations += ran
+    c.nontrivial += ran
+    c.traces_validated += ran
+    c.extra["exit_status_scenarios"] = ran
     c.exhaustive = tier == "thorough"
     return c.finish(
         rule="CliModes.tla: 3 files x 8 content classes x 3 modes x 5 path forms, every order of the per-file steps (TLC, exhaustive; with NO_SETLEN / NO_SEEK switched on TLC finds the stale-tail and the append bug). "
@@ -872,6 +879,13 @@ def c18(tier):
         if c.drift:
             c.extra["model_drift"] = c.drift[:5]
     c.samples.append({"scenario": scen[0], "events": all_events[1:4]})
+    ran, probs = cli.exit_scenarios(c, tier)
+    for sc, p in probs:
+        c.add_violation({"prop": "C18", "clause": p["clause"], "detail": p["detail"], "case": {"label": f"exit/{sc['kind']}/{sc['fails']}", "scenario": sc}})
+    c.evaluations += ran
+    c.nontrivial += ran
+    c.traces_validated += ran
+    c.extra["exit_status_scenarios"] = ran
     return c.finish(
         rule="CliWorkers.tla: every interleaving of 2 workers x 3 files and 3 workers x 4 files with failing subsets (TLC, exhaustive; with NO_CLEAR the long-then-short stale-buffer counterexample is found). "
              "Real batches (2..40 files, thorough ..200; mixed sizes, encodings, empty, undecodable and missing files; 1,2,3,8,16 threads; directory and shuffled explicit paths): every file must equal its solo result, exit status <=> some file failed; "
